@@ -26,7 +26,7 @@
                     not be written to was closed                    (3a27dcb)
      fx_connread    read_answers(): connection kept alive while being read (eb0f53d)
      fx_qidearly    ares_send_nolock(): *qid = id before ares_send_query, not after
-                    (fixes/C01-qid-before-send.patch)                                     *)
+                    (8caadf2)                                                             *)
 From Coq Require Import List ZArith Lia Bool Arith.
 Import ListNotations.
 From CAres.Base Require Import Outcome.
